@@ -29,7 +29,7 @@ use tako::resources::ResourceDescriptor;
 use tako::worker::{ServerLostPolicy, WorkerConfiguration};
 use tako::{TaskId, WorkerId};
 
-const QUANTUM: u64 = 60; // seconds; all limiter delays and ADV amounts are multiples of it
+const QUANTUM: u64 = 600; // seconds; all injected limiter delays and ADV amounts are multiples of it
 
 #[derive(Clone, Copy, Debug, PartialEq)]
 enum SRes {
@@ -479,6 +479,15 @@ impl World {
         v
     }
 
+    /// Take the real time that has passed since the previous call out of every limiter.
+    fn freeze_clock(&mut self) {
+        let mark = self.clock_mark;
+        for (_, q) in self.state.queues_mut() {
+            q.limiter_mut().verif_freeze_clock(mark);
+        }
+        self.clock_mark = std::time::Instant::now();
+    }
+
     fn queue_order(&self) -> Vec<u32> {
         self.state.queues().map(|(id, _)| id).collect()
     }
@@ -489,13 +498,7 @@ impl World {
         let line;
         // wall-clock never matters: real time that passed since the previous operation is taken
         // out of every limiter, only ADV moves their clocks
-        {
-            let mark = self.clock_mark;
-            for (_, q) in self.state.queues_mut() {
-                q.limiter_mut().verif_freeze_clock(mark);
-            }
-            self.clock_mark = std::time::Instant::now();
-        }
+        self.freeze_clock();
         for h in self.handlers.values() {
             let mut h = h.borrow_mut();
             h.submit_calls.clear();
@@ -592,6 +595,7 @@ impl World {
                     join(order.iter().zip(resps.iter()).map(|(q, (a, b, c))| format!("{q}:{a}:{b}:{c}")), ";"),
                     join(scripts.iter().map(|(q, s)| format!("{q}:{}", join(s.iter().map(|x| x.sym()), ","))), ";"),
                 );
+                self.freeze_clock();
                 aa::perform_submits(&mut self.state, &self.senders).await.expect("perform_submits");
                 for q in &order {
                     if let Some(h) = self.handlers.get(q) {
@@ -718,6 +722,7 @@ impl World {
             }
         }
         out.extend(self.drain_events());
+        self.freeze_clock();
         out.extend(aa::snapshot(&self.state, QUANTUM));
         (line, out)
     }
@@ -812,16 +817,16 @@ fn gen_addq(rng: &mut Rng) -> Op {
     let mwpa = *rng.pick(&[1u32, 1, 2, 2, 3, 4, 4, 1, 2, 3, 0]);
     let mwpa = if mwpa == 0 && !rng.chance(1, 6) { 1 } else { mwpa };
     let maxw = if rng.chance(2, 5) { None } else { Some(*rng.pick(&[0u32, 1, 2, 3, 4, 5, 6, 8, 10])) };
-    let lim = if rng.chance(1, 6) {
+    let lim = if rng.chance(1, 8) {
         None
     } else {
         let delays: Vec<u64> = match rng.below(6) {
             0 => vec![0],
             1 => vec![0, 3600],
-            2 => vec![0, 60, 3600],
+            2 => vec![0, 600, 3600],
             3 => vec![600],
             4 => vec![0, 0, 1800],
-            _ => vec![60, 0],
+            _ => vec![600, 0],
         };
         Some((delays, *rng.pick(&[1u64, 2, 3, 3, 10]), *rng.pick(&[1u64, 2, 3, 3, 5])))
     };
@@ -878,7 +883,7 @@ fn gen_op(w: &mut World, rng: &mut Rng, style: u64) -> Op {
             0
         } else {
             let over = if rng.chance(1, 12) { mwpa + 1 } else { mwpa };
-            *rng.pick(&[0u32, 1, 2, 2, 3, mwpa, mwpa, over])
+            *rng.pick(&[0u32, 1.min(mwpa), 2.min(mwpa), 2.min(mwpa), 3.min(mwpa), mwpa, mwpa, over])
         };
         let script = gen_script(w, rng, 7, p_fail);
         Op::Try { q, sn, mn, mnw, script }
@@ -951,7 +956,7 @@ fn gen_op(w: &mut World, rng: &mut Rng, style: u64) -> Op {
     } else if r < 91 && qids.len() < 3 {
         gen_addq(rng)
     } else {
-        Op::Adv(*rng.pick(&[60u64, 600, 600, 1800, 3600, 3600, 7200]))
+        Op::Adv(*rng.pick(&[600u64, 600, 600, 1800, 3600, 3600, 7200]))
     }
 }
 
@@ -1005,6 +1010,8 @@ fn replay(rt: &tokio::runtime::Runtime, text: &str) -> String {
             let _ = writeln!(out, "{line}");
             w = Some(rt.block_on(World::new(7)));
             dead = false;
+        } else if line.starts_with("C quantum") {
+            let _ = writeln!(out, "C quantum {QUANTUM}");
         } else if line.starts_with("C ") {
             let _ = writeln!(out, "{line}");
         } else if let Some(body) = line.strip_prefix("O ") {
